@@ -501,6 +501,46 @@ class _Pre:
                 return n
         T().visit(self.f)
 
+    # -- P6 names built from string literals; membership in `L + (e1, ..., en)` ---------------------------------
+    def p_names(self):
+        names = set(self.spec.get('names', ()))
+        if not names:
+            return
+        pre = self
+
+        class T(ast.NodeTransformer):
+            def visit_Assign(self, n):
+                self.generic_visit(n)
+                if len(n.targets) == 1 and isinstance(n.targets[0], ast.Name) and n.targets[0].id in names:
+                    v = n.value
+                    if isinstance(v, ast.Constant) and isinstance(v.value, str):
+                        n.value = _op('name_lit', [v], v)
+                        pre.note('name-literal')
+                    elif isinstance(v, ast.BinOp) and isinstance(v.op, ast.Add) and isinstance(v.left, ast.Constant) \
+                            and isinstance(v.left.value, str) and isinstance(v.right, ast.Name) and v.right.id in names:
+                        n.value = _op('name_cat', [v.left, v.right], v)
+                        pre.note('name-prefix')
+                return n
+
+            def visit_Compare(self, n):
+                self.generic_visit(n)
+                # x in L + (e1, ..., en)   ->   x in L or x == e1 or ... (an item that is None equals no name)
+                if len(n.ops) == 1 and isinstance(n.ops[0], (ast.In, ast.NotIn)) and isinstance(n.left, ast.Name) \
+                        and isinstance(n.comparators[0], ast.BinOp) and isinstance(n.comparators[0].op, ast.Add) \
+                        and isinstance(n.comparators[0].right, ast.Tuple) and n.comparators[0].right.elts \
+                        and all(isinstance(e, (ast.Name, ast.Attribute, ast.Constant))
+                                for e in n.comparators[0].right.elts):
+                    b = n.comparators[0]
+                    parts = [ast.copy_location(ast.Compare(left=n.left, ops=[ast.In()], comparators=[b.left]), n)]
+                    parts += [_op('name_is', [n.left, e], n) for e in b.right.elts]
+                    r = ast.copy_location(ast.BoolOp(op=ast.Or(), values=parts), n)
+                    pre.note('in-concat')
+                    if isinstance(n.ops[0], ast.NotIn):
+                        r = ast.copy_location(ast.UnaryOp(op=ast.Not(), operand=r), n)
+                    return r
+                return n
+        T().visit(self.f)
+
     def run(self):
         for n in ast.walk(self.f):
             if isinstance(n, ast.Attribute) and n.attr == TAG_ATTR:
@@ -513,6 +553,7 @@ class _Pre:
         self.p_getattr()
         self.p_alias()
         self.p_exceptions()
+        self.p_names()
         self.p_exprs()
         self.p_container_stmts()
         ast.fix_missing_locations(self.f)
@@ -528,8 +569,68 @@ def prepass(fdef, tree, spec, notes):
     return out
 
 
+def region_of(fdef, spec):
+    """The REGION of a module-level function that works on one object of a translated class (spec `region`:
+    `object` = the local holding it, `result` = the local whose value the region computes): the statements after
+    the (only) binding `object = ...` at the top level of the body, up to the first statement that uses anything
+    but the region's declared parameters, locals bound inside the region, the object's declared attributes / translated
+    methods, and the user-defined exception classes.  -> `def f(object, *params): <region>; return result`."""
+    rg = spec['region']
+    obj, result = rg['object'], rg['result']
+    cls = spec['cls']
+    params = list(spec['params'])
+    body = list(fdef.body)
+    if body and isinstance(body[0], ast.Expr) and isinstance(body[0].value, ast.Constant):
+        body = body[1:]
+    starts = [i for i, st in enumerate(body) if isinstance(st, ast.Assign) and len(st.targets) == 1
+              and isinstance(st.targets[0], ast.Name) and st.targets[0].id == obj]
+    if len(starts) != 1 or _stores(fdef, obj) != 1:
+        raise Unsupported(fdef, 'the region object %s is not bound exactly once at the top level' % obj)
+    allowed = set(params) | {obj} | set(cls.get('user_exc', {}))
+    methods = {sp['py'] for sp in cls.get('methods', [])}
+    attrs = set(cls['state']) - {TAG_ATTR}
+
+    def inside(st, bound):
+        for n in ast.walk(st):
+            if isinstance(n, ast.Name) and isinstance(n.ctx, ast.Load) and n.id not in allowed | bound:
+                return False
+            if isinstance(n, ast.Attribute):
+                if not (isinstance(n.value, ast.Name) and n.value.id == obj and n.attr in attrs | methods):
+                    return False
+            if isinstance(n, (ast.Lambda, ast.FunctionDef, ast.ClassDef, ast.Global, ast.Nonlocal, ast.Return,
+                              ast.Yield, ast.YieldFrom, ast.Await)):
+                return False
+        return True
+    out, bound = [], set()
+    for st in body[starts[0] + 1:]:
+        now = bound | {n.id for n in ast.walk(st) if isinstance(n, ast.Name) and isinstance(n.ctx, ast.Store)}
+        if not inside(st, now):
+            break
+        out.append(st)
+        bound = now
+    if result not in bound:
+        raise Unsupported(fdef, 'the region does not bind its result %s' % result)
+    if bound & (set(params) | {obj}):
+        raise Unsupported(fdef, 'the region rebinds one of its parameters')
+    used = {n.id for st in out for n in ast.walk(st) if isinstance(n, ast.Name)}
+    if not set(params) <= used:
+        raise Unsupported(fdef, 'a declared parameter of the region is not used in it')
+    ret = ast.Return(value=ast.Name(id=result, ctx=ast.Load()))
+    ast.copy_location(ret, out[-1])
+    ret.lineno = ret.end_lineno = out[-1].end_lineno + 1
+    new = ast.FunctionDef(name=fdef.name, args=ast.arguments(
+        posonlyargs=[], args=[ast.arg(arg=a) for a in [obj] + params], vararg=None, kwonlyargs=[], kw_defaults=[],
+        kwarg=None, defaults=[]), body=copy.deepcopy(out) + [ret], decorator_list=[], returns=None, type_comment=None)
+    if hasattr(ast, 'TypeVar'):
+        new.type_params = []
+    ast.copy_location(new, fdef)
+    ast.fix_missing_locations(new)
+    return new
+
+
 def region(pre):
-    raise Unsupported(pre.f, 'region extraction is not implemented')
+    pre.note('region')
+    return region_of(pre.f, pre.spec)
 
 
 # ---------------------------------------------------------------------------------------------- operations
@@ -573,7 +674,7 @@ def _subst(pat, env):
 def translate_op(ex, node, expected):
     name = node.func.id[len(OP):]
     fn = ex.fn
-    if name in ('name_lit', 'name_cat'):
+    if name in ('name_lit', 'name_cat', 'name_is'):
         return _name_op(ex, name, node)
     if name not in OPS or node.keywords:
         raise Unsupported(node, 'unknown operation %s' % name)
@@ -609,6 +710,19 @@ def _name_op(ex, name, node):
     kt = ('Var', ex.fn.spec.get('name_type', 'κ'))
     if name == 'name_lit':
         return '(PyRtC13.Names.lit %s : %s)' % (py2lean.str_lit(node.args[0].value), kt[1]), kt
+    if name == 'name_is':
+        # `x == e` as an item test of `x in (..., e, ...)`: e is a name, or None (equal to no name)
+        x, xt = ex.expr(node.args[0])
+        saved, ex.nn = ex.nn, frozenset()
+        try:
+            e, et = ex.expr(node.args[1])
+        finally:
+            ex.nn = saved
+        if et == xt and py2lean.has_deceq(xt, ex.fn.deceq):
+            return 'decide (%s = %s)' % (x, e), py2lean.BOOL
+        if et == ('Option', xt) and py2lean.has_deceq(xt, ex.fn.deceq):
+            return 'decide (%s = some %s)' % (e, x), py2lean.BOOL
+        raise Unsupported(node, 'membership item of type %s for a value of type %s' % (et, xt))
     e, _ = ex.expr(node.args[1], kt)
     return '(PyRtC13.Names.cat %s %s)' % (py2lean.str_lit(node.args[0].value), py2lean.FnTranslator._atom(e)), kt
 
@@ -651,7 +765,7 @@ def alias_nodes(fn, value):
 # (harness/py2lean_selftest.py: CPython vs the generated definitions; this module brings the families of argument
 # tuples / object states for its classes and how to call the real methods)
 
-FB_NAMES = ['a', 'b', 'c', 'd', 'kw', 'args', '_call', '']
+FB_NAMES = ['a', 'b', 'c', 'd', 'kw', 'args', '_call', '__call', '___call', '']
 
 
 def call_method(spec, fn, case, to_py):
@@ -670,11 +784,22 @@ def call_method(spec, fn, case, to_py):
             v = tuple(v)
         setattr(obj, a, v)
     kw = {}
+    sentinel = fn.__globals__[cls['sentinels'][0]]
+
+    def mark(t, v):
+        """`none` of an `Option ν` is the "argument omitted" marker object of the module"""
+        if t[0] == 'Option':
+            return sentinel if v is None else mark(t[1], v)
+        if t[0] == 'List':
+            return [mark(t[1], x) for x in v]
+        if t[0] == 'Prod':
+            return tuple(mark(tt, x) for tt, x in zip(t[1], v))
+        return v
     for p, tt in spec['params'].items():
-        v = to_py(py2lean.parse_type(tt), case[py2lean.mangle(p)])
-        if v is None and py2lean.parse_type(tt)[0] == 'Option':
-            continue                     # `none` of a parameter whose default is the "omitted" marker
-        kw[p] = v
+        t = py2lean.parse_type(tt)
+        kw[p] = mark(t, to_py(t, case[py2lean.mangle(p)]))
+    if spec.get('region'):
+        fn = _region_callable(spec, fn)
     tag = case['self'].get(TAG_ATTR, 0)
     try:
         with common.time_limit(5):
@@ -695,6 +820,26 @@ def call_method(spec, fn, case, to_py):
     return res, after
 
 
+_REGION_FN = {}
+
+
+def _region_callable(spec, fn):
+    """the region of the real function (cut out exactly as the pre-pass does, nothing else rewritten), compiled in
+    the namespace of its module: what the generated definition of a `region` spec is compared with"""
+    import inspect
+    key = (spec['lean_name'], fn)
+    if key not in _REGION_FN:
+        tree = ast.parse(inspect.getsource(inspect.getmodule(fn)))
+        fdef = py2lean._find_function(tree, spec['qualname'])
+        new = region_of(fdef, spec)
+        mod = ast.Module(body=[new], type_ignores=[])
+        ast.fix_missing_locations(mod)
+        ns = {}
+        exec(compile(mod, '<region of %s>' % spec['qualname'], 'exec'), fn.__globals__, ns)
+        _REGION_FN[key] = ns[fdef.name]
+    return _REGION_FN[key]
+
+
 def _fb_states(rng, quick):
     """states of a FunctionBuilder: reachable ones (`from_func` of generated functions followed by random histories of
     `add_arg` / `remove_arg` on the real class) and arbitrary ones (duplicates, more defaults than arguments,
@@ -706,8 +851,8 @@ def _fb_states(rng, quick):
         return {'name': fb.name, 'args': list(fb.args), 'defaults': None if fb.defaults is None else list(fb.defaults),
                 'kwonlyargs': list(fb.kwonlyargs), 'kwonlydefaults': dict(fb.kwonlydefaults or {}),
                 'varargs': fb.varargs, 'varkw': fb.varkw, TAG_ATTR: 0}
-    for _ in range(14 if quick else 140):
-        names = rng.sample(FB_NAMES[:7], rng.randint(0, 5))
+    for _ in range(40 if quick else 300):
+        names = rng.sample(FB_NAMES[:9], rng.randint(0, 5))
         npos = rng.randint(0, len(names))
         pos, kwo = names[:npos], names[npos:]
         nd = rng.randint(0, len(pos))
@@ -735,7 +880,7 @@ def _fb_states(rng, quick):
             except ValueError:
                 pass
             yield snap(fb)
-    for _ in range(40 if quick else 400):
+    for _ in range(100 if quick else 800):
         args = [rng.choice(FB_NAMES) for _ in range(rng.randint(0, 4))]
         kwo = [rng.choice(FB_NAMES) for _ in range(rng.randint(0, 3))]
         yield {'name': rng.choice(FB_NAMES), 'args': args,
@@ -758,6 +903,12 @@ def fam_fb(method):
                     case.update(arg_name=name, default=rng.choice([None, None, 0, 7]), kwonly=rng.random() < 0.4)
                 elif method == 'remove_arg':
                     case.update(arg_name=name)
+                elif method == 'update_wrapper_core':
+                    pool = known + FB_NAMES
+                    case.update(injected=[rng.choice(pool) for _ in range(rng.randint(0, 3))],
+                                expected_items=[(rng.choice(pool), rng.choice([None, None, 3]))
+                                                for _ in range(rng.randint(0, 3))],
+                                inject_to_varkw=rng.random() < 0.6)
                 yield case
     return fam
 
@@ -767,4 +918,5 @@ FAMILIES = {
     'FunctionBuilder.get_arg_names': fam_fb('get_arg_names'),
     'FunctionBuilder.add_arg': fam_fb('add_arg'),
     'FunctionBuilder.remove_arg': fam_fb('remove_arg'),
+    'FunctionBuilder.update_wrapper_core': fam_fb('update_wrapper_core'),
 }
